@@ -4,17 +4,19 @@ import common, dsutil
 from common import quiet
 
 PROP = 'C05'
-LEAN_MODULES = ['XyzProofs.Props.C05', 'XyzProofs.Refine.Reap']
+LEAN_MODULES = ['XyzProofs.Props.C05', 'XyzProofs.Refine.Reap', 'XyzProofs.Refine.Harvest']
 THEOREMS = ['Harvest.c05_step', 'Harvest.c05_step_first', 'Harvest.c05_mem_eq_disk', 'Harvest.c05_never_dropped',
             'Harvest.c05_name_consistent', 'Harvest.c05_unsynced_block', 'Harvest.c05_expand_relabels',
             'Harvest.c05_drop_sel_only_dropped', 'Harvest.c05_unsynced_then_synced_counterexample',
             'Harvest.c05_save_merge_step',
-            'Refine.autoAddExt_refines']
+            'Refine.autoAddExt_refines',
+            'Harvest.hvLoadFull_refines', 'Harvest.hvSaveFull_refines', 'Harvest.hvAddDs_eq_spec', 'Harvest.hvAddDs_refines',
+            'Harvest.hvSaveFull_error_keeps_mem', 'Harvest.hvAddDs_merge_error_no_write']
 ANCHORS = ['engineExt', 'extRuleSubstring', 'extAppendCount', 'saveDsExtends', 'loadDsExtends',
            'loadFullAccessExtended', 'loadFullIsfileExtended', 'saveFullExistsExtended', 'saveFullRemoveExtended',
            'deleteRemoveExtended', 'saveMergeExistsExtended', 'saveMergeLoadsWithEngine',
            'addDsTrue', 'addDsFalse', 'addDsNone', 'saveMergeTrue', 'saveMergeFalse', 'saveMergeNone',
-           'autoAddExt']
+           'autoAddExt', 'hvLoadFull', 'hvSaveFull', 'hvAddDs']
 RULE = ("a case is a history of 1-8 operations on one data file: harvest_combos / harvest_cases / add_ds (Dataset or "
         "DataArray) over sub-grids and case lists of a 4x3 coordinate box (plus a third dimension after expand_dims), "
         "values from two versions of the function (conflicts) with NaN cells, int or float results, one or two "
